@@ -13,7 +13,7 @@ use neurons::tensor::Tensor;
 pub fn meta(ctx: &Ctx) -> Meta {
     let e = max_epochs(ctx);
     Meta {
-        rule: format!("every validation-loss trajectory in {{rise,fall,equal}}^(E-1) for epoch budgets E in 1..{} x every tolerance T in 1..5, with validation data (also with print frequencies 1, 2 and beyond the budget on a third of them); every E in 1..{} without; the unmodified learn() is driven through each of them and the commanded pattern is re-derived from the returned vector (only matching runs count). Oracle over what learn() returned: len(train)=n; len(val_loss)=len(val_acc)=n (0 and n=E without validation data); stop(e) := e>T and the last T recorded losses strictly increasing is false for every e<n; if n<E then stop(n). States = (epoch, pattern prefix) pairs visited; transitions = epochs run; non-trivial = trajectories with at least one rise", e, e),
+        rule: format!("every validation-loss trajectory in {{rise,fall,equal}}^(E-1) for epoch budgets E in 1..{} x every tolerance T in 1..5, plus tolerances 6..12, 16, 20 with budgets T+1, T+2, T+4 on all trajectories with at most two non-rise events, with validation data (also with print frequencies 1, 2 and beyond the budget on a third of them); every E in 1..{} without; the unmodified learn() is driven through each of them and the commanded pattern is re-derived from the returned vector (only matching runs count). Oracle over what learn() returned: len(train)=n; len(val_loss)=len(val_acc)=n (0 and n=E without validation data); stop(e) := e>T and the last T recorded losses strictly increasing is false for every e<n; if n<E then stop(n). States = (epoch, pattern prefix) pairs visited; transitions = epochs run; non-trivial = trajectories with at least one rise", e, e),
         bound: format!("E <= {}, T <= 5; complete", e),
         exhaustive: true,
         assumptions: vec!["stop rule read as in the statement's anchor: the window of the last T recorded validation losses is strictly increasing (T-1 comparisons) and more than T epochs have run".into()],
@@ -173,6 +173,31 @@ pub fn cases(ctx: &Ctx) -> Vec<Kv> {
                         out.push(Kv::new().put("epochs", epochs).put("tol", tol).put("val", 1).put("pattern", &pat).put("print", print));
                     }
                 }
+            }
+        }
+    }
+    // beyond the small bound: tolerances 6..=12 (and 16, 20) with budgets just above them; trajectories with at most two
+    // non-rise events anywhere (a rise-only run is what finally triggers the stop)
+    for tol in [6usize, 7, 8, 9, 10, 11, 12, 16, 20] {
+        for epochs in [tol + 1, tol + 2, tol + 4] {
+            let slots = epochs - 1;
+            let mut pats: Vec<String> = vec!["r".repeat(slots)];
+            for i in 0..slots {
+                for c in ['f', 'e'] {
+                    let mut p: Vec<char> = vec!['r'; slots];
+                    p[i] = c;
+                    pats.push(p.iter().collect());
+                    if i % 3 == 0 {
+                        for j in (i + 1..slots).step_by(4) {
+                            let mut q = p.clone();
+                            q[j] = 'f';
+                            pats.push(q.iter().collect());
+                        }
+                    }
+                }
+            }
+            for p in pats {
+                out.push(Kv::new().put("epochs", epochs).put("tol", tol).put("val", 1).put("pattern", p));
             }
         }
     }
